@@ -91,3 +91,11 @@ chk("C16", "exploration",
     "uudecoder, equals the statement's program text, kept comments and function name.",
     "'Every Perl program' is not enumerable: the grammar covers the constructs the quantifier names. $0/__FILE__/__DATA__ excluded as the statement says. Known finding: the empty script (see known_findings.json).",
     "DESIGN.md 5 C16")
+
+chk("C10", "exploration",
+    "bounded exhaustive enumeration of printf-significant token strings in every client-controlled position of every reporting handler, over real TLS against the in-process server",
+    "Every string of <=3 (thorough 4) tokens over {%, %%, s, d, v, q, x, 20, -, +, #, *, [1], !, a, %20, %25, %73, %2B} as file path, file query, c2 parameter (valid and invalid escapes), c2 header, "
+    "another /c parameter, /i ID and /o ID (refused and attaching), Host; the template-missing/unparsable/exec-failure and files-directory-missing error branches; client addresses with a percent "
+    "sign (zoned link-local IPv6) when the host has one. Oracle: the notice about the request carries the text as data and no formatter artefact the client did not send.",
+    "Only requests net/http lets through to a handler can be explored. The 'every call site in the tree' clause of the quantifier is not decided by this technique (a static scan is another family); only sites reached by requests are exercised.",
+    "DESIGN.md 5 C10")
